@@ -61,6 +61,8 @@ def harvest(seed, n=300):
 
 def family(name):
     """normalise a generated-binding name to its family (the known-findings key)"""
+    if name.startswith("r#"):
+        name = name[2:]
     if re.fullmatch(r"_\d+", name):
         return "_N"
     if re.fullmatch(r"__\d+", name):
@@ -218,6 +220,10 @@ EXTRA_BINDINGS = ["arg", "size", "data", "self_data", "other_data", "educe__f", 
                   "other_discriminant", "Educe__DebugField", "Educe__RawString"]
 
 
+# generated type-level names (the Hasher parameter and its lengthened form), tried in their raw spelling as well
+RAW_EXTRA = ["H", "HH", "V", "M"]
+
+
 # (trait, signature, body, field attribute, type-level traits)
 METHOD_NAMES_ALL = False   # thorough tier: every harvested name; quick: the known bindings + a fixed quarter of the harvest
 METHOD_TEMPLATES = [
@@ -238,12 +244,15 @@ def directed(pool):
     """one definition per (harvested identifier, position): const / type parameter, field, variant, lifetime"""
     out = []
     Z = RT + "Z"
-    for x in list(pool) + [b for b in EXTRA_BINDINGS if b not in pool]:
-        if x not in CONST_EXCLUDE:
+    # the raw spelling of a name is the same name: `r#H` next to a generated `H`
+    raws = ["r#" + b for b in EXTRA_BINDINGS + RAW_EXTRA]
+    for x in list(pool) + [b for b in EXTRA_BINDINGS if b not in pool] + raws:
+        base = x[2:] if x.startswith("r#") else x
+        if base not in CONST_EXCLUDE:
           out.append(("const-param", x,
                     "#[derive(::educe::Educe)]\n#[educe(%s)]\npub struct Ty<const %s: usize> {\n    #[educe(Default(expression = %szs::<%s>()))]\n"
                     "    pub a: [%s; %s],\n    #[educe(Debug(method(%sfmt_alt)))]\n    pub b: u8,\n}\n" % (ALL9, x, RT, x, Z, x, RT)))
-        if x not in CONST_EXCLUDE:
+        if base not in CONST_EXCLUDE:
           out.append(("const-param", x,
                     "#[derive(::educe::Educe)]\n#[educe(%s)]\npub enum Ty<const %s: usize> {\n    #[educe(Default)]\n    V(#[educe(Default = %szs::<%s>())] [%s; %s], u8),\n"
                     "    W { #[educe(Debug(method(%sfmt_alt)))] k: u8 },\n    U,\n}\n" % (ALL9.replace("Debug", "Debug(name = true)"), x, RT, x, Z, x, RT)))
@@ -269,7 +278,7 @@ def directed(pool):
                     "#[derive(::educe::Educe)]\n#[educe(Debug, Clone, PartialEq, Deref, DerefMut, Into(u16))]\npub enum Ty {\n    %s(u16),\n"
                     "    Zz { #[educe(Deref, DerefMut, Into(u16))] a: u16, b: u8 },\n}\n" % x))
         # a user function named like a generated binding, used as a custom method through its bare name
-        for tr, sig, body, attr, head in (METHOD_TEMPLATES if (METHOD_NAMES_ALL or x in EXTRA_BINDINGS or digest(x)[0] in "0123") else []):
+        for tr, sig, body, attr, head in (METHOD_TEMPLATES if (METHOD_NAMES_ALL or base in EXTRA_BINDINGS or digest(x)[0] in "0123") else []):
             fn = "pub fn %s%s { %s }\n" % (x, sig, body)
             a = attr % x
             out.append(("method-name/" + tr, x,
@@ -285,7 +294,7 @@ def directed(pool):
                     % (x, ALL9, x, x, x, x, RT, x, x, ALL9, x, x, x)))
         # a constant of that name next to the derive (value namespace: a generated binding pattern of the same name
         # becomes a constant pattern / an illegal shadowing)
-        if x not in CONST_EXCLUDE:
+        if base not in CONST_EXCLUDE:
             out.append(("surrounding-const", x,
                         "pub const %s: u16 = 7;\n#[derive(::educe::Educe)]\n#[educe(%s, Into(u16))]\npub struct Ty {\n    pub key: u16,\n"
                         "    #[educe(Debug(method(%szz_dbg)))]\n    pub b: u8,\n}\n"
@@ -312,13 +321,14 @@ def directed(pool):
                         "pub struct %s {}\npub fn zz_typed<Q>(v: &u8, f: &mut ::core::fmt::Formatter<'_>) -> ::core::fmt::Result { ::core::fmt::Debug::fmt(v, f) }\n"
                         "#[derive(::educe::Educe)]\n#[educe(Debug)]\npub struct Ty {\n    #[educe(Debug(%s))]\n    pub k: u8,\n    pub j: u8,\n}\n" % (x, sp % x)))
         # the name together with its lengthened forms, longest first: a fresh name must avoid all of them at once
-        chain = [x + x[-1] * 2, x + x[-1], x]
+        chain = [x + x[-1] * 2, base + base[-1], x]
         out.append(("type-param-chain", x,
                     "#[derive(::educe::Educe)]\n#[educe(%s)]\npub struct Ty<%s>(%s);\n"
                     "#[derive(::educe::Educe)]\n#[educe(%s)]\npub enum Ty2<%s, const %s: usize> {\n    #[educe(Default)]\n    V(%s, [u8; %s]),\n    W { k: %s },\n}\n"
                     % (ALL9, ", ".join("%s: %sPayload" % (c, RT) for c in chain), ", ".join("pub " + c for c in chain),
                        ALL9, "%s: %sPayload" % (chain[2], RT), chain[1], chain[2], chain[1], chain[2])))
-        out.append(("lifetime", x,
+        if x == base:
+          out.append(("lifetime", x,
                     "#[derive(::educe::Educe)]\n#[educe(Debug, Clone, PartialEq, Eq, PartialOrd, Ord, Hash, Deref)]\npub struct Ty<'%s> {\n    pub a: &'%s u8,\n}\n" % (x, x)))
     return out
 
